@@ -372,8 +372,11 @@ impl<T: Read + Seek> Iterator for PointCloudReaderSimple<'_, T> {
             }
         }
 
-        // Read raw point values as simple point, add to buffer
-        let available = self.queue_reader.available();
+        // Read raw point values as simple point, add to buffer.
+        // Never convert more points than the point cloud has left: the unused bits at the end
+        // of the byte streams can look like additional values, but they carry no data.
+        let remaining = usize::try_from(self.pc.records - self.read).unwrap_or(usize::MAX);
+        let available = self.queue_reader.available().min(remaining);
         self.buffer.reserve(available);
         for _ in 0..available {
             let p = match self.pop_point() {
